@@ -108,10 +108,11 @@ theorem fieldErrors_nil_iff (T : ScopeTable) (ctx : Ctx) (spec : ColSpec) (fn : 
       rw [← dupMask_allFalse_iff spec.reportDup, ← truePositions_nil_iff]
       cases hd : truePositions (dupMask spec.reportDup vals) <;> simp
     · simp [hu]
-  · cases hd : spec.dtype with
+  · unfold dtypeErrs
+    cases hd : spec.dtype with
     | none => simp
     | some t =>
-      simp only [Option.some.injEq, forall_eq']
+      simp only [Option.some.injEq, forall_eq', Bool.true_and]
       rw [dtypeOkImpl_eq t phys vals hfit (hK t hd)]
       cases Spec.dtypeOk t phys <;> simp
   · exact checksSteps_nil_iff ctx fn vals spec.checks
